@@ -108,3 +108,192 @@ package evaluator
 //@   loop 2 invariant fresh(pairs) && (fresh(nonHashablePairs) || arrOf(nonHashablePairs) == arrOf(nonHashablePairs0))
 //@   loop 3 invariant fresh(pairs) && (fresh(nonHashablePairs) || arrOf(nonHashablePairs) == arrOf(nonHashablePairs0))
 //@   loop 4 invariant fresh(pairs) && (fresh(nonHashablePairs) || arrOf(nonHashablePairs) == arrOf(nonHashablePairs0))
+//
+// ---- ghost call log --------------------------------------------------------------------------
+// Direct calls of these functions are recorded, in order, in the ghost log of the calling activation
+// (callee, reference arguments, result). ncalls, called(i, f), arg1(i).., result(i) speak about it.
+//@ traced: evaluator.Eval, evaluator.isTruthy, evaluator.canShortCut, evaluator.builtInCallProp, evaluator.evalStmts, evaluator._evalStmts, evaluator.evalDefer, evaluator.evalCall, evaluator.evalPanFuncCall, evaluator.evalFuncCall, evaluator.iterOf, evaluator.evalArgs, evaluator.evalKwargs, evaluator.evalCallArgs, evaluator.extractRecv, evaluator.evalProp
+//
+// ---- the evaluator's central dispatcher and the shape of the syntax tree (assumed) ---------------
+// The parser builds every node with its source position (established by the grammar actions; the parser is
+// not verified - C02/C17).
+//
+// ---- syntax-tree shape (assumed: built by the parser, never modified by the evaluator) ----------
+//@ invariant ast.Program: self.Src != nil
+//@ invariant ast.ExprStmt: self.Src != nil
+//@ invariant ast.JumpStmt: self.Src != nil
+//@ invariant ast.JumpIfStmt: self.Src != nil
+//@ invariant ast.Ident: self.Src != nil
+//@ invariant ast.PropCallExpr: self.Src != nil
+//@ invariant ast.LiteralCallExpr: self.Src != nil
+//@ invariant ast.VarCallExpr: self.Src != nil
+//@ invariant ast.PrefixExpr: self.Src != nil
+//@ invariant ast.InfixExpr: self.Src != nil
+//@ invariant ast.AssignExpr: self.Src != nil
+//@ invariant ast.EmbeddedStr: self.Src != nil
+//@ invariant ast.StrLiteral: self.Src != nil
+//@ invariant ast.SymLiteral: self.Src != nil
+//@ invariant ast.RangeLiteral: self.Src != nil
+//@ invariant ast.IfExpr: self.Src != nil
+//@ invariant ast.FuncLiteral: self.Src != nil
+//@ invariant ast.IterLiteral: self.Src != nil
+//@ invariant ast.MatchLiteral: self.Src != nil
+//@ invariant ast.FuncComponent: self.Src != nil
+//@ invariant ast.DiamondLiteral: self.Src != nil
+//@ invariant ast.ObjLiteral: self.Src != nil
+//@ invariant ast.MapLiteral: self.Src != nil
+//@ invariant ast.ArrLiteral: self.Src != nil
+//@ invariant ast.IntLiteral: self.Src != nil
+//@ invariant ast.FloatLiteral: self.Src != nil
+// mandatory children of syntax-tree nodes (the grammar cannot build these nodes without them)
+//@ invariant ast.ExprStmt: self.Expr != nil
+//@ invariant ast.JumpStmt: self.Val != nil
+//@ invariant ast.JumpIfStmt: self.JumpStmt != nil && self.Cond != nil
+//@ invariant ast.PropCallExpr: self.Chain != nil && self.Prop != nil
+//@ invariant ast.LiteralCallExpr: self.Chain != nil && self.Func != nil
+//@ invariant ast.VarCallExpr: self.Chain != nil && self.Var != nil
+//@ invariant ast.KwargPair: self.Key != nil && self.Val != nil
+//@ invariant ast.Pair: self.Key != nil && self.Val != nil
+//@ invariant ast.PrefixExpr: self.Right != nil
+//@ invariant ast.InfixExpr: self.Left != nil && self.Right != nil
+//@ invariant ast.AssignExpr: self.Left != nil && self.Right != nil
+//@ invariant ast.IfExpr: self.Cond != nil && self.Then != nil
+//@ invariant ast.FormerStrPiece: self.Expr != nil
+//@ func ast.Node.Source(recv) res
+//@   trusted
+//@   ensures res != nil
+// Eval: total on well-formed trees; an expression node evaluates to a value (errors are values too),
+// a statement node may also produce one of the interpreter-internal carriers. Assumed here (trusted): its
+// body is the type switch over the evalX functions, each of which is verified against its own contract.
+//@ props C12 C07 C15 C19 C03 C08 C01
+//@ func evaluator.Eval(node, env) res
+//@   trusted
+//@   requires node != nil && env != nil
+//@   ensures  res != nil
+//@   ensures  isT(node, ast.Expr) ==> isVal(res)
+//@   assigns  EC
+//
+//@ props C12 C07 C15 C19
+// appendStackTrace returns the error it was given (kind and message untouched); it writes only the trace.
+//@ func evaluator.appendStackTrace(e, src) res
+//@   requires e != nil && src != nil
+//@   ensures  res == e
+//@   assigns  EC
+//
+// ---- C12: one truthiness rule, exactly one branch, short-circuit -------------------------------
+//@ props C12
+// isB(i, recv): the i-th logged call is builtInCallProp(env, {}, {}, recv, 'B)
+//@ spec macro isB(i int, env *object.Env, recv object.PanObject) bool = called(i, evaluator.builtInCallProp) && arg1(i) == env && nvarargs(i) == 3 && arg4(i) == recv && isT(arg5(i), *object.PanStr) && as(arg5(i), *object.PanStr).Value == "B"
+//
+//@ func evaluator.isTruthy(obj, env) res
+//@   requires isVal(obj) && env != nil
+//@   ensures  isT(obj, *object.PanBool) ==> ncalls == 0 && (res <==> obj == object.BuiltInTrue)
+//@   ensures  !isT(obj, *object.PanBool) ==> ncalls == 1 && isB(0, env, obj) && (res <==> result(0) == object.BuiltInTrue)
+//@   assigns  EC
+//
+//@ func evaluator.canShortCut(left, op, env) res
+//@   requires isVal(left) && env != nil
+//@   ensures  ncalls == 1 && isB(0, env, left)
+//@   ensures  op == "||" ==> (res <==> result(0) == object.BuiltInTrue)
+//@   ensures  op == "&&" ==> (res <==> result(0) != object.BuiltInTrue)
+//@   ensures  op != "||" && op != "&&" ==> !res
+//@   assigns  EC
+//
+// `l || r`, `l && r`: the left operand is evaluated once; the right one at most once and only when the
+// left one does not decide; the deciding operand itself is returned.
+//@ func evaluator.evalShortCutInfix(node, env) res
+//@   requires node != nil && env != nil && node.Left != nil && node.Right != nil
+//@   ensures  ncalls >= 1 && called(0, evaluator.Eval) && arg1(0) == node.Left && arg2(0) == env
+//@   ensures  isT(result(0), *object.PanErr) ==> ncalls == 1 && res == result(0)
+//@   ensures  !isT(result(0), *object.PanErr) ==> called(1, evaluator.canShortCut) && arg1(1) == result(0)
+//@   ensures  !isT(result(0), *object.PanErr) && resultb(1) ==> ncalls == 2 && res == result(0)
+//@   ensures  !isT(result(0), *object.PanErr) && !resultb(1) ==> ncalls == 3 && called(2, evaluator.Eval) && arg1(2) == node.Right && arg2(2) == env && res == result(2)
+//@   assigns  EC
+//
+// `x if c else y`: the condition is evaluated once, then exactly one branch, chosen by isTruthy(c).
+//@ func evaluator.evalIf(node, env) res
+//@   requires node != nil && env != nil && node.Cond != nil && node.Then != nil
+//@   ensures  ncalls >= 1 && called(0, evaluator.Eval) && arg1(0) == node.Cond && arg2(0) == env
+//@   ensures  isT(result(0), *object.PanErr) ==> ncalls == 1 && res == result(0)
+//@   ensures  !isT(result(0), *object.PanErr) ==> called(1, evaluator.isTruthy) && arg1(1) == result(0)
+//@   ensures  !isT(result(0), *object.PanErr) && resultb(1) ==> ncalls == 3 && called(2, evaluator.Eval) && arg1(2) == node.Then && res == result(2)
+//@   ensures  !isT(result(0), *object.PanErr) && !resultb(1) && node.Else == nil ==> ncalls == 2 && res == object.BuiltInNil
+//@   ensures  !isT(result(0), *object.PanErr) && !resultb(1) && node.Else != nil ==> ncalls == 3 && called(2, evaluator.Eval) && arg1(2) == node.Else && res == result(2)
+//@   assigns  EC
+//
+// guarded jumps: the guard uses isTruthy; a false guard yields nil (StopIterErr for yield) and does not
+// evaluate the jump's value
+//@ func evaluator.evalJumpIfReturn(node, env, cond) res
+//@   requires node != nil && env != nil && node.JumpStmt != nil && isVal(cond)
+//@   ensures  ncalls >= 1 && called(0, evaluator.isTruthy) && arg1(0) == cond
+//@   ensures  !resultb(0) ==> ncalls == 1 && res == object.BuiltInNil
+//@   ensures  resultb(0) ==> ncalls == 2 && called(1, evaluator.Eval) && arg1(1) == node.JumpStmt && res == result(1)
+//@   assigns  EC
+//@ func evaluator.evalJumpIfRaise(node, env, cond) res
+//@   requires node != nil && env != nil && node.JumpStmt != nil && isVal(cond)
+//@   ensures  ncalls >= 1 && called(0, evaluator.isTruthy) && arg1(0) == cond
+//@   ensures  !resultb(0) ==> ncalls == 1 && res == object.BuiltInNil
+//@   ensures  resultb(0) ==> ncalls == 2 && called(1, evaluator.Eval) && arg1(1) == node.JumpStmt
+//@   assigns  EC
+//@ func evaluator.evalJumpIfYield(node, env, cond) res
+//@   requires node != nil && env != nil && node.JumpStmt != nil && isVal(cond)
+//@   ensures  ncalls >= 1 && called(0, evaluator.isTruthy) && arg1(0) == cond
+//@   ensures  !resultb(0) ==> ncalls == 1 && isT(res, *object.PanErr) && as(res, *object.PanErr).ErrKind == object.StopIterErr
+//@   ensures  resultb(0) ==> ncalls == 2 && called(1, evaluator.Eval) && arg1(1) == node.JumpStmt && res == result(1)
+//@   assigns  EC
+//@ func evaluator.evalJumpIfDefer(node, env, cond) res
+//@   requires node != nil && env != nil && node.JumpStmt != nil && isVal(cond)
+//@   ensures  ncalls == 1 && called(0, evaluator.isTruthy) && arg1(0) == cond
+//@   ensures  !resultb(0) ==> res == object.BuiltInNil
+//@   ensures  resultb(0) ==> isT(res, *object.DeferObj) && as(res, *object.DeferObj).Node == node.JumpStmt.Val
+//@   assigns  EC
+//
+// ---- C15: deferred expressions ---------------------------------------------------------------------
+//@ props C15
+// a plain `defer e` registers e without evaluating it
+//@ func evaluator.evalJumpStmt(node, env) res
+//@   requires node != nil && env != nil && node.Val != nil
+//@   ensures  node.JumpType == ast.DeferJump ==> ncalls == 0 && isT(res, *object.DeferObj) && as(res, *object.DeferObj).Node == node.Val
+//@   ensures  node.JumpType != ast.DeferJump ==> ncalls == 1 && called(0, evaluator.Eval) && arg1(0) == node.Val && arg2(0) == env
+//@   ensures  node.JumpType != ast.DeferJump && isT(result(0), *object.PanErr) ==> res == result(0)
+//@   assigns  EC
+//
+// the statements are evaluated in order, one Eval each; evaluation stops at the first error / return;
+// a DeferObj result is appended (exactly once, at the end) to the collected list, anything else leaves it unchanged
+//@ func evaluator._evalStmts(stmts, env) res, deferObjs
+//@   requires env != nil && (forall i int :: {stmts[i]} 0 <= i && i < len(stmts) ==> stmts[i] != nil)
+//@   ensures  forall k int :: {result(k)} {arg1(k)} 0 <= k && k < ncalls ==> called(k, evaluator.Eval) && arg1(k) == stmts[k] && arg2(k) == env
+//@   ensures  forall k int :: {result(k)} {arg1(k)} 0 <= k && k < ncalls - 1 ==> !isT(result(k), *object.PanErr) && !isT(result(k), *object.ReturnObj)
+//@   ensures  ncalls <= len(stmts)
+//@   ensures  len(stmts) == 0 ==> res == object.BuiltInNil && len(deferObjs) == 0
+//@   ensures  ncalls >= 1 && isT(result(ncalls - 1), *object.PanErr) ==> res == result(ncalls - 1)
+//@   ensures  forall j int :: {deferObjs[j]} 0 <= j && j < len(deferObjs) ==> deferObjs[j].Node != nil
+//@   assigns  EC
+//@   loop 1 invariant fresh(deferObjs) && ncalls == rangeindex + 1 && ncalls <= len(stmts) && val != nil
+//@   loop 1 invariant forall k int :: {result(k)} {arg1(k)} 0 <= k && k < ncalls ==> called(k, evaluator.Eval) && arg1(k) == stmts[k] && arg2(k) == env && !isT(result(k), *object.PanErr) && !isT(result(k), *object.ReturnObj)
+//@   loop 1 invariant ncalls == 0 ==> len(deferObjs) == 0 && val == object.BuiltInNil && yielded == nil
+//@   loop 1 invariant forall j int :: {deferObjs[j]} 0 <= j && j < len(deferObjs) ==> deferObjs[j].Node != nil
+//@   loop 1 step ncalls == prev(ncalls) + 1
+//@   loop 1 step isT(result(prev(ncalls)), *object.DeferObj) ==> len(deferObjs) == prev(len(deferObjs)) + 1 && deferObjs[prev(len(deferObjs))].Node == as(result(prev(ncalls)), *object.DeferObj).Node
+//@   loop 1 step !isT(result(prev(ncalls)), *object.DeferObj) ==> deferObjs == prev(deferObjs)
+//@   loop 1 step forall j int :: {deferObjs[j]} 0 <= j && j < prev(len(deferObjs)) ==> deferObjs[j] == prev(deferObjs[j])
+//
+// the collected defers are evaluated after the body, in order, each once, stopping at the first error
+//@ func evaluator.evalDefer(deferObjs, env) err
+//@   requires env != nil && (forall i int :: {deferObjs[i]} 0 <= i && i < len(deferObjs) ==> deferObjs[i].Node != nil)
+//@   ensures  forall k int :: {result(k)} {arg1(k)} 0 <= k && k < ncalls ==> called(k, evaluator.Eval) && arg1(k) == deferObjs[k].Node && arg2(k) == env
+//@   ensures  forall k int :: {result(k)} {arg1(k)} 0 <= k && k < ncalls - 1 ==> !isT(result(k), *object.PanErr)
+//@   ensures  err == nil ==> ncalls == len(deferObjs) && (ncalls >= 1 ==> !isT(result(ncalls - 1), *object.PanErr))
+//@   ensures  err != nil ==> ncalls >= 1 && ncalls <= len(deferObjs) && err == result(ncalls - 1)
+//@   assigns  EC
+//@   loop 1 invariant ncalls == rangeindex + 1 && ncalls <= len(deferObjs)
+//@   loop 1 invariant forall k int :: {result(k)} {arg1(k)} 0 <= k && k < ncalls ==> called(k, evaluator.Eval) && arg1(k) == deferObjs[k].Node && arg2(k) == env && !isT(result(k), *object.PanErr)
+//
+// body first, then the defers it collected - on every way out; only a failing defer replaces the outcome
+//@ func evaluator.evalStmts(stmts, env) res
+//@   requires env != nil && (forall i int :: {stmts[i]} 0 <= i && i < len(stmts) ==> stmts[i] != nil)
+//@   ensures  ncalls == 2 && called(0, evaluator._evalStmts) && arg1(0) == env && sliceArg(0) == stmts
+//@   ensures  called(1, evaluator.evalDefer) && sliceArg(1) == sliceRes(0) && arg1(1) == env
+//@   ensures  result(1) != nil ==> res == result(1)
+//@   ensures  result(1) == nil ==> res == result(0)
+//@   assigns  EC
